@@ -171,6 +171,52 @@ narrowing_u!(narrowing_u64_u8, u8);
 narrowing_u!(narrowing_u64_u16, u16);
 narrowing_u!(narrowing_u64_u32, u32);
 
+// ---------- C04-range: `.range(r)` narrows to exactly r ----------
+// "inside the declared range": for EVERY kind of range (a..b, a..=b, ..b, ..=b, a.., (Excluded(a), ..), ..) and every i64 / u64 value, the
+// bounds stored by `range()` contain v exactly when the declared range does (and, for an open side, when the previous bounds do).
+// Loop-free over full-domain symbolic inputs: complete.
+fn any_bound<T: kani::Arbitrary>() -> std::ops::Bound<T> {
+    let k: u8 = kani::any();
+    let v: T = kani::any();
+    match k % 3 { 0 => std::ops::Bound::Included(v), 1 => std::ops::Bound::Excluded(v), _ => std::ops::Bound::Unbounded }
+}
+macro_rules! range_narrows {
+    ($name:ident, $name2:ident, $parser:ident, $t:ty) => {
+        #[kani::proof]
+        #[kani::stub(alloc::fmt::format, stub_format)]
+        pub(super) fn $name() {
+            use std::ops::RangeBounds;
+            let r: (std::ops::Bound<$t>, std::ops::Bound<$t>) = (any_bound(), any_bound());
+            let p: $parser<$t> = $parser::new().range(r);
+            let v: $t = kani::any();
+            assert!(p.bounds.contains(&v) == r.contains(&v));
+            kani::cover!(matches!(r.1, std::ops::Bound::Excluded(e) if e == v));
+            kani::cover!(matches!(r.0, std::ops::Bound::Excluded(e) if e == v));
+            kani::cover!(p.bounds.contains(&v));
+        }
+        // narrowing twice: inside both
+        #[kani::proof]
+        #[kani::stub(alloc::fmt::format, stub_format)]
+        pub(super) fn $name2() {
+            use std::ops::RangeBounds;
+            let lo: $t = kani::any();
+            let hi: $t = kani::any();
+            kani::assume(lo <= hi);
+            let r: (std::ops::Bound<$t>, std::ops::Bound<$t>) = (any_bound(), any_bound());
+            // the documented requirement of `range` (its debug assertions): the new range lies inside the old one
+            match r.0 { std::ops::Bound::Included(i) => kani::assume(lo <= i && i <= hi), std::ops::Bound::Excluded(i) => kani::assume(i < <$t>::MAX && lo <= i + 1 && i + 1 <= hi), _ => {} }
+            match r.1 { std::ops::Bound::Included(i) => kani::assume(lo <= i && i <= hi), std::ops::Bound::Excluded(i) => kani::assume(i > <$t>::MIN && lo <= i - 1 && i - 1 <= hi), _ => {} }
+            let p: $parser<$t> = $parser::new().range(lo..=hi).range(r);
+            let v: $t = kani::any();
+            assert!(p.bounds.contains(&v) == (lo <= v && v <= hi && r.contains(&v)));
+            kani::cover!(p.bounds.contains(&v));
+            kani::cover!(matches!(r.1, std::ops::Bound::Unbounded) && v == hi);
+        }
+    };
+}
+range_narrows!(range_narrows_i64, range_narrows_twice_i64, RangedI64ValueParser, i64);
+range_narrows!(range_narrows_u64, range_narrows_twice_u64, RangedU64ValueParser, u64);
+
 // ---------- C04-bool ----------
 fn is_lit(b: &[u8], s: &str) -> bool {
     let t = s.as_bytes();
